@@ -112,10 +112,9 @@ class TrackedFile:
         return self
 
     def __next__(self):
-        line = self.readline()
-        if not line:
-            raise StopIteration
-        return line
+        # iteration is the file's own (a text file that is iterated answers tell() differently)
+        self._tick()
+        return next(self._f)
 
     def __getattr__(self, name):
         return getattr(self._f, name)
@@ -136,6 +135,21 @@ class TrackedStream:
     def close(self):
         self.closed_flag = True
         return self._f.close()
+
+    @property
+    def headers(self):
+        # every other answer comes from a server that says nothing about modification times
+        # (as many do; 'data:' URLs never do)
+        h = self._f.headers
+        if getattr(self, "index", 0) % 2 == 0:
+            import copy
+            h = copy.copy(h)
+            del h["Last-Modified"]
+            del h["Last-modified"]
+        return h
+
+    def info(self):
+        return self.headers
 
     def __getattr__(self, name):
         return getattr(self._f, name)
@@ -183,6 +197,56 @@ def install():
     urllib.request.urlopen = tracked_urlopen
     L.openPackageResource = tracked_pkg
     L.BaseLoader.createResource = tracked_create
+
+
+BAD_LINES = ["<x y z>", "%nosuchdirective x", "top ${unclosed", "<nosuchtype>"]
+
+
+def _text_faults(R, sc, res):
+    import os
+    out = []
+    root = urllib.request.url2pathname(R.main[len("file://"):])
+    files = []
+    for d, _dirs, fns in os.walk(R.root):
+        for fn in sorted(fns):
+            if fn.endswith(".conf"):
+                files.append(os.path.join(d, fn))
+    files.sort()
+    n = 0
+    for path in files:
+        with open(path, encoding="utf-8") as f:
+            original = f.read()
+        lines = original.split("\n")
+        if len(original) > 100000:
+            continue
+        positions = list(range(len(lines)))
+        if len(positions) > 5:
+            positions = positions[:2] + positions[len(positions) // 2:len(positions) // 2 + 1] + positions[-2:]
+        try:
+            for i in positions:
+                bad = BAD_LINES[(i + n) % len(BAD_LINES)]
+                n += 1
+                with open(path, "w", encoding="utf-8", newline="\n") as f:
+                    f.write("\n".join(lines[:i] + [bad] + lines[i:]))
+                R.fresh_loader()
+                o = R.run()
+                where = "%s line %d (%r)" % (os.path.basename(path), i + 1, bad)
+                for l in STATE.at_raise:
+                    out.append(("leak:after-text-fault:while-the-exception-is-held", "%s ; %s ; outcome %r" % (l, where, o[:2])))
+                for l in leaks():
+                    out.append(("leak:after-text-fault", "%s ; %s ; outcome %r" % (l, where, o[:2])))
+                if o[0] == "other":
+                    out.append(("unexpected-exception:text-fault:%s" % o[1], "%s: %s" % (where, o[2])))
+                if res is not None:
+                    res.evaluations += 1
+                    res.count("points:text")
+                    if o[0] == "reject":
+                        res.count("points:text:refused")
+                        res.nontrivial()
+        finally:
+            with open(path, "w", encoding="utf-8", newline="\n") as f:
+                f.write(original)
+    return out
 
 
 def _short(url):
@@ -436,6 +500,25 @@ class Runner:
             return "raised %r" % (e,)
         return "accepted: top=%r" % (cfg.top,)
 
+    def probe_import(self):
+        """After a (failed) load that said '%import': a text that only USES the component's section
+        type, through the same loader object and through a new one for the same schema object.
+        -> None when both refuse it (the vocabulary of the earlier load is gone)."""
+        ZConfig = loadcheck.zc()
+        import ZConfig.loader
+        for label, loader in (("same loader", getattr(self, "cloader", None)),
+                              ("new loader, same schema", ZConfig.loader.ConfigLoader(self.schema))):
+            if loader is None:
+                continue
+            try:
+                loader.loadFile(io.StringIO("<impl>\n  k 1\n</impl>\n"), "file:///zcv/probe-import.conf")
+            except ZConfig.ConfigurationError:
+                continue
+            except Exception as e:  # noqa
+                return "%s: raised %r" % (label, e)
+            return "%s: accepted" % label
+        return None
+
     def run(self, plan=None, conv=None):
         """-> outcome tuple; resets the tracking state first."""
         ZConfig = loadcheck.zc()
@@ -527,6 +610,10 @@ def run_scenario(sc, res=None, only=None):
                 pr = R.probe()
                 if pr is not None:
                     out.append(("definition-left-behind-after-%s-fault" % label, "point %r ; probe 'top $zcvdef' -> %s" % (p, pr), p))
+            if sc["kind"] == "config" and sc.get("packages"):
+                pr = R.probe_import()
+                if pr is not None:
+                    out.append(("imported-type-left-behind-after-%s-fault" % label, "point %r ; probe '<impl>' -> %s" % (p, pr), p))
             for l in leaks():
                 out.append(("leak:after-%s-fault" % label, "%s ; point %r ; outcome %r" % (l, p, o[:2]), p))
             if o[0] == "ok" and p[0] != "conv":
@@ -552,6 +639,11 @@ def run_scenario(sc, res=None, only=None):
                     res.nontrivial()
                 elif p[0] == "conv":
                     res.nontrivial()
+        # failures that are the text's own: a malformed line in front of line i of resource file j
+        # (whichever resource and whichever line the failure occurs in)
+        if sc["kind"] == "config" and only is None:
+            for sig, d in _text_faults(R, sc, res):
+                out.append((sig, d, None))
         # the same with a second load through the SAME loader object run to completion from inside
         # the first conversion (texts without %import only: a loader serves one %import at a time)
         if sc["kind"] == "config" and not sc.get("packages") and calls and only is None \
